@@ -44,3 +44,6 @@ def run(R):
     R.whole_file_write("C17.registry.whole", "ant_service_management::NodeRegistry::save", "NodeRegistry::save replaces the registry file whole")
     for name, entries in ENTRIES.items():
         R.no_panic_reach("C17." + name, entries, suppress=SUPPRESS, floor_bodies=FLOORS.get(name, 1))
+    # "never panics or overflows": a silent wrap-around of the 256-bit amount while parsing is an overflow too (rules of C16)
+    import props.C16 as _C16
+    R.import_rules("C16", _C16.run, ["C16.nowrap", "C16.parse."], "C17.atto")
